@@ -138,13 +138,37 @@ class proceed:
         self.fn = fn
 
     def __enter__(self):
-        self.curr = HandlerCollection.current.get() or HandlerCollection([])
-        self.interactor, new = self.curr.proceed(self.fn)
-        self.reset = HandlerCollection.current.set(new)
+        self.outer = HandlerCollection.current.get()
+        self.curr = self.outer or HandlerCollection([])
+        self.interactor, self.inner = self.curr.proceed(self.fn)
+        # Lets a generator hand the context back to its caller when it yields
+        self.interactor.suspension = self
+        self.running = True
+        HandlerCollection.current.set(self.inner)
         return self.interactor
 
+    def suspend(self):
+        """Called right before a generator yields.
+
+        The code that drives the generator is not running inside of it: give
+        it back the collection it had when it resumed the generator.
+        """
+        if self.running:
+            self.running = False
+            HandlerCollection.current.set(self.outer)
+
+    def resume(self):
+        """Called right after a generator is resumed."""
+        if not self.running:
+            self.running = True
+            self.outer = HandlerCollection.current.get()
+            HandlerCollection.current.set(self.inner)
+
     def __exit__(self, typ, exc, tb):
-        HandlerCollection.current.reset(self.reset)
+        if self.running:
+            # When a suspended generator is closed or collected, the context
+            # already belongs to whoever is running: leave it alone.
+            HandlerCollection.current.set(self.outer)
         self.interactor.exit()
 
 
